@@ -663,6 +663,14 @@ var shapes5 = [][][]int{
 	{nil, nil, nil, {0, 1, 2}, {3}},    // wide fork with a tail
 }
 
+// shapesDiamond4: top c0; middles c1, c2; bottom c3.
+var shapesDiamond4 = [][][]int{
+	{nil, {0}, {0}, {1, 2}},    // diamond
+	{nil, {0}, {0}, {2, 1}},    // diamond, middles in the other order
+	{nil, {0}, {0}, {1, 2, 0}}, // diamond whose bottom also names the top directly
+	{nil, {0}, {1}, {2, 0}},    // chain whose bottom also names the top directly (redundant-direct)
+}
+
 func enumerate(tier string, emit func(string)) {
 	thorough := tier == engine.Thorough
 	// family P: no redefinition, every permutation of the defclass forms
@@ -693,6 +701,21 @@ func enumerate(tier string, emit func(string)) {
 	}
 	// 4 classes: every DAG, every permutation
 	emitP(emit, 4, 3, []string{"f.-"})
+	// family RD (both tiers): the 4-class diamonds and redundant-direct shapes with the TOP class redefined
+	// (every applicable kind, cold and warm, all 60 orders): the re-merge of the bottom class must wait for
+	// BOTH middle classes (seeded change C12-diamond-redefinition-merged-once was only seen by thorough before)
+	for _, g := range shapesDiamond4 {
+		product(alphaTwo, 4, func(sl []string) {
+			c := mkCase(g, sl)
+			for _, nd := range redefsOf(c, 0) {
+				c2 := *c
+				c2.redef = &redefSpec{r: 0, def: nd}
+				emit(c2.String())
+				c2.warm = true
+				emit(c2.String())
+			}
+		})
+	}
 	if thorough {
 		emitP(emit, 4, 3, alphaTiny)
 		emitR(emit, 4, 2, []string{"f.-"}, false)
